@@ -1,6 +1,7 @@
 //! verif-mgr — deterministic simulation of the real `MultiPathManager` (C05, C06, C07, C20).
 
 mod c07;
+mod c20;
 mod hist;
 mod world;
 
@@ -55,14 +56,16 @@ pub fn classify(clause: &str, detail: &str, _trace: &[String]) -> Option<&'stati
 }
 
 fn run_history(prop: &str, ctx: &mut RunCtx) -> RunResult {
+    // C20 runs are pre-emptive: the chance of yielding at a hooked scheduling point is a swarm knob
+    let preempt = if prop == "C20" { [(1u64, 3u64), (1, 6), (1, 12), (1, 2)][ctx.ch.idx(4)] } else { (0, 1) };
     let ch = std::mem::replace(&mut ctx.ch, simcore::Choices::replay(Vec::new()));
     let trace = std::mem::take(&mut ctx.trace);
-    let sim = Sim::new(ch, trace, (0, 1), std::env::var("VERIF_LOG_SCHED").is_ok());
+    let sim = Sim::new(ch, trace, preempt, prop == "C20" || std::env::var("VERIF_LOG_SCHED").is_ok());
     let open = ctx.open_list();
     let r = std::panic::catch_unwind(std::panic::AssertUnwindSafe(|| {
         let mut h = Hist::new(prop, sim.clone());
         h.open = open;
-        let r = drive(&mut h);
+        let r = if prop == "C20" { c20::drive_c20(&mut h) } else { drive(&mut h) };
         let known = std::mem::take(&mut h.known_hits);
         let sim_ms = sim.now_ns() / 1_000_000;
         // drop the manager inside the simulation's lifetime, then tear down
@@ -124,8 +127,12 @@ fn drive(h: &mut Hist) -> RunResult2 {
         }
         let pair = h.pair(sim.idx(h.n_dst));
         match op {
-            0 => h.op_send(pair),
-            1 => h.op_try_send(pair),
+            0 => {
+                h.op_send(pair);
+            }
+            1 => {
+                h.op_try_send(pair);
+            }
             2 => {
                 h.op_advance(STEPS)?;
                 continue;
@@ -144,7 +151,7 @@ fn drive(h: &mut Hist) -> RunResult2 {
             9 => h.op_gc(),
             _ => {
                 let p = (pair.0, pair.0);
-                h.op_send(p)
+                h.op_send(p);
             }
         }
         h.settle_and_check(STEPS)?;
@@ -162,7 +169,7 @@ impl Engine for MgrEngine {
     }
     fn run(&self, prop: &str, ctx: &mut RunCtx) -> RunResult {
         match prop {
-            "C05" | "C06" | "C07" => run_history(prop, ctx),
+            "C05" | "C06" | "C07" | "C20" => run_history(prop, ctx),
             _ => Ok(()),
         }
     }
@@ -204,6 +211,7 @@ impl Engine for MgrEngine {
             "C05" => vec!["handout-path", "policy-rejected-some", "policy-accepted-some", "lookup-error", "clock-advance"],
             "C06" => vec!["handout-path", "lookup-error", "lookup-empty", "clock-on-boundary", "oracle-sizes", "final-liveness-checked"],
             "C07" => vec!["report-concerns-active", "switch-checked", "report-unrelated"],
+            "C20" => vec!["waiter-while-lookup-outstanding", "oracle-single-worker", "concurrent-first-requests", "oracle-drop", "caller-cancelled", "manager-dropped"],
             _ => vec![],
         }
     }
